@@ -116,6 +116,12 @@ def rule_predicate(ctx: Ctx) -> None:
         is_gt = fs.get("truthy:is_gt")
         tl_none = fs.get("none:target_labels")
         cont = next((v for k, v in fs.items() if k.startswith("call:any([") and "CommonLabel.UNKNOWN" in k), None)
+        for k in fs:
+            if k.startswith("call:any([") and "CommonLabel.UNKNOWN" in k and ("unk-def", k) not in atom_checked:
+                atom_checked[("unk-def", k)] = True
+                okd = re.match(r"^call:any\(\[(\w+)==CommonLabel\.UNKNOWNfor\1intarget_labels\]\)$", k) is not None or re.match(r"^call:any\(\[CommonLabel\.UNKNOWN==(\w+)for\1intarget_labels\]\)$", k) is not None
+                ctx.check(okd, "C10-predicate", "_is_target_object", "unknown-targeted-test", f"whether `unknown` is a target label is decided by `{k[5:][:100]}`; expected any(label == CommonLabel.UNKNOWN for label in target_labels) "
+                          "(the relaxed bounds apply to unknown-labelled estimates only when unknown is NOT itself a target)", fi=fi, expected="any([label == CommonLabel.UNKNOWN for label in target_labels])", found=k[5:][:120])
         contained = False if tl_none else cont
         if unk is False or is_gt is True:
             relaxed = False
@@ -436,3 +442,5 @@ def run(ctx: Ctx) -> None:
     ctx.run(rule_filter_idiom)
     ctx.run(rule_pure)
     ctx.run(rule_manager)
+    from rules import C03
+    ctx.run(C03.rule_filter_both)  # a paired result is kept iff its estimate AND its ground truth pass the same filter (GT-less: iff no uuid selection)
